@@ -205,7 +205,8 @@ def check_query(case, m, ref, ctx, classes):
     return nn, ne, len(ref.loc), len(edges), long_edge
 
 
-def check_case(case, ctx):
+def check_case(case0, ctx):
+    case = dict(case0, graph=xl_graph(case0["xl_side"])) if "xl_side" in case0 else case0
     ref = Ref(case)
     classes = [case["backend"], "magnitude:" + case["magnitude"], "mode:" + case["mode"], "max_elmt:%s" % case["max_elmt"]]
     d = None
@@ -232,11 +233,44 @@ def check_case(case, ctx):
     if ref.exact_nodes:
         classes.append("exactly-at-radius")
     nontrivial = (0 < nn < N) or (0 < ne < E)
-    ctx.record(case, nontrivial, classes, {"nodes_within": nn, "edges_within": ne, "nodes": N, "edges": E})
+    ctx.record(case0, nontrivial, classes, {"nodes_within": nn, "edges_within": ne, "nodes": N, "edges": E})
+
+
+@st.composite
+def _xl_case(draw):
+    """A big map (34x34 .. 40x40 grid: 1156-1600 nodes, ~4500-6200 directed edges) and a radius that covers more than a
+    thousand nodes and edges: result sets beyond any small internal batch or page size."""
+    side = draw(st.sampled_from([34, 36, 40]))
+    backend = draw(st.sampled_from(["sqlite", "sqlite", "inmem"]))
+    q = [draw(st.integers(0, 4 * side)) / 4.0 + 0.125, draw(st.integers(0, 4 * side)) / 4.0 + 0.0625]
+    r = draw(st.sampled_from([None, float(side), 0.75 * side, 21.3]))
+    me = draw(st.sampled_from([None, None, 3, 1500]))
+    # (the graph itself is rebuilt from `xl_side` by check_case: the case document stays small)
+    return {"backend": backend, "magnitude": "unit", "mode": "xl" + ("+unbounded" if r is None else ""), "max_elmt": me,
+            "metric": "planar", "xl_side": side, "loc": q, "radius": r}
+
+
+def xl_graph(side):
+    g = []
+    for i in range(side):
+        for j in range(side):
+            nb = []
+            if j + 1 < side:
+                nb.append(i * side + j + 1)
+            if j > 0:
+                nb.append(i * side + j - 1)
+            if i + 1 < side:
+                nb.append((i + 1) * side + j)
+            if i > 0 and (i + j) % 3:
+                nb.append((i - 1) * side + j)  # some one-way streets
+            g.append([i * side + j, [float(i), float(j)], nb])
+    return g
 
 
 @st.composite
 def _case(draw, tier):
+    if draw(st.sampled_from(range(300))) == 150:
+        return draw(_xl_case())
     sz = gen.sizes(tier)
     backend = draw(st.sampled_from(["inmem", "sqlite"]))
     magnitude = draw(st.sampled_from(["unit", "metres", "metres", "degrees"]))
